@@ -70,6 +70,9 @@ var names = []nameCase{
 	{query: "alice.myco", cfgName: "alice.myco", myco: true},
 	{query: "bob-2.myco", cfgName: "Bob-2.MYCO", myco: true},
 	{query: "svc.alice.myco", cfgName: "svc.alice.myco.", myco: true},
+	// labels ending in letters of the suffix itself.
+	{query: "tom.myco", cfgName: "tom.myco", myco: true},
+	{query: "marco.myco", cfgName: "Marco.myco", myco: true},
 	{query: "xn--bcher-kva.myco", cfgName: "bücher.myco", myco: true},
 	{query: "example.com", cfgName: "", myco: false},
 	{query: "alice.myco.example.com", cfgName: "", myco: false},
@@ -140,7 +143,7 @@ func caseVariants(q string) []string {
 func TestC19(t *testing.T) {
 	env := kit.GetEnv()
 	rep := kit.NewReport("C19", env)
-	rep.Rule = "for every name of a 13-name alphabet (2 built-in, 2 forbidden, 3 ordinary incl. sub-name and mixed-case/trailing-dot config spelling, IDN, 5 non-.myco/edge) x every subset of {resolve entry, friend} holding it x every history of <= D mapping operations (save ip1/ip2, delete, on the name and on an unrelated name): every query = case variant x trailing dot x qtype in {A,AAAA,SVCB,HTTPS,ANY,TXT,MX,0,65535} x qclass in {IN,ANY,CH,NONE,0} x question count {0,1,2}, through the real ServeDNS and Lookup, compared with the reference precedence function; non-trivial = at least two sources hold the name or the query must be refused; states = distinct (config subset, mapping store content); distinct = distinct (state, query)"
+	rep.Rule = "for every name of a 15-name alphabet (2 built-in, 2 forbidden, 5 ordinary incl. labels ending in letters of the suffix, sub-name and mixed-case/trailing-dot config spelling, IDN, 5 non-.myco/edge) x every subset of {resolve entry, friend} holding it x every history of <= D mapping operations (save ip1/ip2, delete, on the name and on an unrelated name): every query = case variant x trailing dot x qtype in {A,AAAA,SVCB,HTTPS,ANY,TXT,MX,0,65535} x qclass in {IN,ANY,CH,NONE,0} x question count {0,1,2}, through the real ServeDNS and Lookup, compared with the reference precedence function; the same server is also queried before and after every single operation of the history, and for 9 neighbour names of the name (label plus/minus characters, sub- and super-names) which must give a name error; non-trivial = at least two sources hold the name or the query must be refused; states = distinct (config subset, mapping store content); distinct = distinct (state, query)"
 	rep.Assumptions = []string{
 		"friend names in the configuration are lower case (the statement does not define matching of mixed-case friend names)",
 		"queries reach the server as parsed DNS messages (miekg/dns does the wire parsing)",
@@ -213,7 +216,42 @@ func TestC19(t *testing.T) {
 						rep.Violate("clean-domain", fmt.Sprintf("CleanDomain(%q) = %q,%v; expected %q", nc.cfgName, cleaned, ok, nc.query), nil)
 						continue
 					}
-					for _, o := range hist {
+					// the server is queried before the first and after every
+					// mapping operation (one server lives through the history).
+					stepCheck := func(step int) {
+						w := reference(nc, hasResolve, hasFriend, mapping)
+						ip, src := srv.Lookup(nc.query)
+						gotFound := src != dns.SourceNone && src != dns.SourceForbidden
+						evals++
+						nontrivial++
+						if gotFound != w.found || (w.found && (ip != w.ip || src != w.source)) {
+							rep.Violate(fmt.Sprintf("lookup-during-history/%s", classOf(nc)), fmt.Sprintf("after %d of the mapping operations %v: Lookup(%q) = (%v,%q), reference (%v,%q,found=%v); resolve=%v friend=%v mapping=%v", step, hist, nc.query, ip, src, w.ip, w.source, w.found, hasResolve, hasFriend, mapping), map[string]any{"name": nc.query, "resolve": hasResolve, "friend": hasFriend, "mapping_history": fmt.Sprint(hist), "step": step})
+						}
+						req := new(mdns.Msg)
+						req.Id = 78
+						req.Question = []mdns.Question{{Name: nc.query + ".", Qtype: mdns.TypeAAAA, Qclass: mdns.ClassINET}}
+						rw := &recWriter{}
+						if pan, pv := kit.Try(func() { srv.ServeDNS(rw, req) }); pan {
+							rep.Violate("servedns-panic", fmt.Sprintf("ServeDNS panicked: %v", pv), nc.query)
+							return
+						}
+						if len(rw.msgs) != 1 {
+							rep.Violate("no-reply", fmt.Sprintf("%d replies for %q during the mapping history", len(rw.msgs), nc.query), nc.query)
+							return
+						}
+						gip, gsrc := extract(rw.msgs[0])
+						answered := rw.msgs[0].Rcode == mdns.RcodeSuccess && len(rw.msgs[0].Answer) > 0
+						if answered != w.found || (w.found && (gip != w.ip || gsrc != string(w.source))) {
+							rep.Violate(fmt.Sprintf("answer-during-history/%s", classOf(nc)), fmt.Sprintf("after %d of the mapping operations %v: AAAA %q answered=%v ip=%v source=%q, reference found=%v ip=%v source=%q", step, hist, nc.query, answered, gip, gsrc, w.found, w.ip, w.source), map[string]any{"name": nc.query, "resolve": hasResolve, "friend": hasFriend, "mapping_history": fmt.Sprint(hist), "step": step})
+						}
+					}
+					if nc.myco && len(hist) > 0 {
+						stepCheck(0)
+					}
+					for oi, o := range hist {
+						if oi > 0 && nc.myco {
+							stepCheck(oi)
+						}
 						target := cleaned
 						if o.name == 1 {
 							target = "unrelated.myco"
@@ -253,6 +291,37 @@ func TestC19(t *testing.T) {
 					gotFound := src != dns.SourceNone && src != dns.SourceForbidden
 					if gotFound != want.found || (want.found && (ip != want.ip || src != want.source)) {
 						rep.Violate(fmt.Sprintf("lookup-precedence/%s", classOf(nc)), fmt.Sprintf("Lookup(%q) = (%v,%q), reference (%v,%q,found=%v); resolve=%v friend=%v mapping=%v", nc.query, ip, src, want.ip, want.source, want.found, hasResolve, hasFriend, mapping), desc(nc.query, 0, 0, 1))
+					}
+				}
+
+				// neighbours of the name hold nothing: name error, whatever the name itself holds.
+				if nc.myco && nc.cfgName != "" {
+					label := strings.TrimSuffix(nc.query, ".myco")
+					for _, nb := range []string{label + "c", label + "o", label + "my", label + "myco", label + ".m", label[:len(label)-1], "x" + label, "x." + label, label + ".x"} {
+						nq := nb + ".myco"
+						known := nb == ""
+						for _, other := range names {
+							if other.query == nq {
+								known = true
+							}
+						}
+						if known {
+							continue
+						}
+						evals++
+						nontrivial++
+						if ip, src := srv.Lookup(nq); src != dns.SourceNone && src != dns.SourceForbidden {
+							rep.Violate(fmt.Sprintf("neighbour-answered/%s", classOf(nc)), fmt.Sprintf("Lookup(%q) = (%v,%q) although only %q is held (resolve=%v friend=%v mapping=%v)", nq, ip, src, nc.query, hasResolve, hasFriend, mapping), desc(nq, 0, 0, 1))
+						}
+						req := new(mdns.Msg)
+						req.Id = 79
+						req.Question = []mdns.Question{{Name: nq + ".", Qtype: mdns.TypeAAAA, Qclass: mdns.ClassINET}}
+						rw := &recWriter{}
+						if pan, pv := kit.Try(func() { srv.ServeDNS(rw, req) }); pan {
+							rep.Violate("servedns-panic", fmt.Sprintf("ServeDNS panicked: %v", pv), desc(nq, mdns.TypeAAAA, mdns.ClassINET, 1))
+						} else if len(rw.msgs) != 1 || rw.msgs[0].Rcode != mdns.RcodeNameError || len(rw.msgs[0].Answer) > 0 {
+							rep.Violate(fmt.Sprintf("neighbour-answered/%s", classOf(nc)), fmt.Sprintf("AAAA %q is not answered with a name error although only %q is held (resolve=%v friend=%v mapping=%v)", nq, nc.query, hasResolve, hasFriend, mapping), desc(nq, mdns.TypeAAAA, mdns.ClassINET, 1))
+						}
 					}
 				}
 
